@@ -136,7 +136,9 @@ def main(argv=None):
     extra_checks = pm.extra(tier, seed) if hasattr(pm, 'extra') else []
 
     viol, undecided, faults, kf_lines = [], [], [], []
+    bounded_runs = []
     n_obl = n_dis = n_leaves = 0
+    n_solver = 0
     backends = {}
     solver_s = 0.0
     canaries = 0
@@ -150,6 +152,7 @@ def main(argv=None):
         for be, n in (r.get('backends') or {}).items():
             backends[be] = backends.get(be, 0) + n
         solver_s += sum(x[3] for x in r['results'])
+        n_solver += len([x for x in r['results'] if x[1] == 'proved' and x[2] != 'trivial'])
         cf = r.get('conformance')
         if cf:
             conf_cases += cf['compared']
@@ -157,6 +160,19 @@ def main(argv=None):
                 faults.append('model/real disagreement in %s: %s' % (r['oid'], cf['problems'][:2]))
         if r['status'] == 'crash':
             faults.append('crash in %s: %s' % (r['oid'], (r['error'] or '')[-400:]))
+            continue
+        if r.get('bounded_only'):
+            bounded_runs.append(dict(what=r['oid'], scope=r.get('scope', ''), cases=(r.get('bounded') or {}).get('tried', 0),
+                                     bounded=True, passed=r['status'] == 'bounded-pass'))
+            if r['status'] == 'bounded-fail':
+                ks = match_known(known, prop, r['oid'], sorted({x[0] for x in r['bounded']['failing']}))
+                if ks:
+                    for k in ks:
+                        kf_lines.append('KNOWN-FINDING: property=%s %s -- %s' % (prop, r['oid'], k['what']))
+                        kf_reproduced.append(k['key'])
+                else:
+                    path = write_replay(prop, r, 'bounded-standin-failing-input')
+                    viol.append('VIOLATION property=%s replay=%s' % (prop, path))
             continue
         if r.get('canary'):
             if r['status'] == 'refuted' and (r.get('replay') or {}).get('confirmed'):
@@ -174,7 +190,7 @@ def main(argv=None):
             n_dis += n_this
             if len(samples) < 4 and r['results']:
                 samples.append(dict(obligation=r['oid'], leaves=r['nleaves'], clause=r['results'][0][0], verdict='proved',
-                                    backend=r['results'][0][2]))
+                                    backend=r['results'][0][2], negated_leaf_smt2=(r.get('sample_smt') or '')[:1200]))
             continue
         confirmed = (r['status'] == 'refuted' and (r.get('replay') or {}).get('confirmed')) or \
                     ((r.get('bounded') or {}).get('found'))
@@ -226,7 +242,7 @@ def main(argv=None):
     for line in viol:
         print(line)
     wall = time.time() - t0
-    if n_obl + len(kf_lines) == 0:
+    if n_obl + len(kf_lines) + len(bounded_runs) == 0:
         faults.append('zero obligations generated')
         print('CHECKER-FAULT: zero obligations')
 
@@ -242,8 +258,9 @@ def main(argv=None):
                undecided=len(undecided), samples=samples or [dict(note='no proved obligation in this run')],
                explanation=getattr(pm, 'EXPLANATION', ''),
                not_machine_checked=getattr(pm, 'NOT_MACHINE_CHECKED', []),
-               bounded_standins=getattr(pm, 'BOUNDED', []),
-               exhaustive=False, evaluations=max(1, n_obl), distinct_nontrivial=max(2, n_dis))
+               bounded_standins=getattr(pm, 'BOUNDED', []) + bounded_runs,
+               exhaustive=False, evaluations=max(1, n_obl), distinct_nontrivial=n_solver,
+               rule='one evaluation = one (clause, index region) leaf of one obligation; non-trivial = discharged by a solver call (z3 / z3+split / cvc5) rather than by syntactic identity of the two sides after tracing; leaves are distinct by construction (disjoint index regions x clauses x grids x configurations)')
     ev = dict(property_id=prop, tier=tier, seed=seed, level=level, coverage=cov,
               assumptions=[ASSUMPTIONS[k] for k in getattr(pm, 'TRUSTED', ['A1', 'A2', 'A5', 'A6', 'UF'])] + getattr(pm, 'EXTRA_ASSUMPTIONS', []),
               wall_s=round(wall, 2), violations=len(viol))
